@@ -8,6 +8,7 @@ package main
 import (
 	"encoding/json"
 	"fmt"
+	"math"
 	"math/big"
 	"strconv"
 	"strings"
@@ -896,6 +897,78 @@ func parseLayers(j judge, tier string) []Layer {
 				}
 			},
 		})
+		// C2: receivers whose precision attribute is at the top of the uint32 range (working precisions
+		// derived from it must not wrap); only literals whose binary exponent is non-negative, so that no
+		// division at that precision is needed
+		{
+			lits := []string{"0x1p62", "0x1p113", "0x1.8p200", "1p70", "0b1p64", "0x.8p70", "0xffp300", "0o7p90", "12345p33"}
+			hp := []uint32{math.MaxUint32, math.MaxUint32 - 1, math.MaxUint32 - 17, math.MaxUint32 - 18, math.MaxUint32 - 19, 1 << 31}
+			layers = append(layers, Layer{
+				Name:   "C2-binary-exponent-at-extreme-precision",
+				Units:  len(lits),
+				Bounds: fmt.Sprintf("literals %v (non-negative net binary exponent) × ± × receiver precision %v × modes Even/ToZero: the stored value is exact", lits, hp),
+				Run: func(c *Ctx, u int) {
+					for _, sg := range []string{"", "-"} {
+						for _, p := range hp {
+							for _, md := range []uint8{ToNearestEven, ToZero} {
+								parseCase(c, j, sg+lits[u], 0, p, md, false)
+							}
+						}
+					}
+				},
+			})
+		}
+		// C3: fmt.Scanner entry point on input containing non-ASCII runes: same verdict and value as math/big's Float
+		{
+			bases := []string{"15", "1.5", "1e5", "0x1f", "-2.25e2", "1_000", "0b101", "7"} // all exactly representable in binary
+			// runes whose low byte is a character of the number grammar
+			var runes []rune
+			for _, lo := range "0123456789.eEpPxXbBoO_+-" {
+				runes = append(runes, 0x100+lo, 0x2000+lo, 0x600+lo)
+			}
+			runes = append(runes, 'é', '€', '١', 'ı', '℮', 'Ÿ', 0x1F600)
+			layers = append(layers, Layer{
+				Name:   "C3-scan-non-ascii",
+				Units:  len(bases),
+				Bounds: fmt.Sprintf("fmt.Sscan of %d literals with one of %d non-ASCII runes (every rune whose low byte is a character of the number grammar in three Unicode blocks, plus letters, digits of other scripts, an emoji) inserted at every position: success/failure and value identical to fmt.Sscan into a *big.Float", len(bases), len(runes)),
+				Run: func(c *Ctx, u int) {
+					b := bases[u]
+					for pos := 0; pos <= len(b); pos++ {
+						for _, r := range runes {
+							if c.Skip() {
+								continue
+							}
+							s := b[:pos] + string(r) + b[pos:]
+							z := fresh(40, ToNearestEven)
+							f := new(big.Float).SetPrec(200)
+							var n1, n2 int
+							var e1, e2 error
+							pv, _ := protect(func() { n1, e1 = fmt.Sscan(s, z) })
+							n2, e2 = fmt.Sscan(s, f)
+							key := fmt.Sprintf("Sscan(%q)", s)
+							c.NonTrivial()
+							if pv != nil {
+								c.Fail(key, fmt.Sprintf("panic: %v", pv))
+								continue
+							}
+							if (e1 == nil) != (e2 == nil) || n1 != n2 {
+								c.Fail(key, fmt.Sprintf("Decimal: n=%d err=%v; big.Float: n=%d err=%v", n1, e1, n2, e2))
+								continue
+							}
+							if e1 == nil {
+								ex := exactOfBigFloat(f)
+								if o := Observe(z); o.Form != ex.Form || o.Neg != ex.Neg || (o.Form == fFinite && !o.Val().Equal(ex)) {
+									c.Fail(key, fmt.Sprintf("Decimal scanned %s, big.Float scanned %s", o.Val(), ex))
+								}
+							}
+							if msg := Canonical(Observe(z)); msg != "" {
+								c.Fail(key, "receiver malformed: "+msg)
+							}
+						}
+					}
+				},
+			})
+		}
 	}
 	return layers
 }
